@@ -1,5 +1,6 @@
 import EduceModel.Lemmas.Env
 import EduceModel.Spec.Deref
+import EduceModel.Generated.Templates
 /-
   C09 — Deref and DerefMut expose exactly the designated field.
   One model serves both traits (each has its own marker, carried by `DerefField.flag`).
@@ -283,5 +284,23 @@ example : (body exDerefType).toOption.bind (fun bd => Sem.evalDeref exDerefType 
 -- two markers, or none among several fields, are refused
 example : (body (.struct { shape := .tuple, fields := [ { flag := true }, { flag := true } ] })).toOption = none := by decide
 example : (body (.struct { shape := .tuple, fields := [ {}, {} ] })).toOption = none := by decide
+
+
+/-! ## What the generated code calls
+
+The absolute paths (`::core::..`) named by the `quote!` templates of the handler, regenerated from /repo/src on every run
+(`vtool extract`): the functions, traits and types the generated code can reach are exactly these - a call of anything
+else (`::core::ptr::eq`, `::core::fmt::Display::fmt`, `::core::convert::From::from`, ...) is a change of what the
+implementation does and has to be looked at. -/
+
+theorem generated_calls_unchanged_deref :
+    Generated.paths_trait_handlers_deref =
+      ["::core::ops::Deref"] := by
+  decide +kernel
+
+theorem generated_calls_unchanged_deref_mut :
+    Generated.paths_trait_handlers_deref_mut =
+      ["::core::ops::DerefMut"] := by
+  decide +kernel
 
 end Educe
